@@ -8,6 +8,8 @@
 //!       mode search : plan_renames_with_search on the first root with the given map
 //!       mode conf   : plan_renames_with_conflicts on the first root with the given map (renames + conflicts)
 //!       mode scan   : scan_repository_multi on all roots (builds its own map from search/replace/styles)
+//!       optional tail after the tree: S <level> I n <include>.. X n <exclude>.. G n (<kind> <dir> <path>)..  (unrestricted level,
+//!       glob patterns; G = ignore facts for the model, the ignore files themselves are in the tree)
 //!       flags: f = rename_files, d = rename_dirs, c = coercion auto   (`-` = none)
 //!       -> ok <f|d>:<path>><newpath> ... [| <m|w>:<target><<src>,<src> ...]   |  refused <n>  |  error
 //! Paths are relative to a fresh base directory; <cwd> (relative to it) becomes the working directory.
@@ -132,8 +134,33 @@ fn plan(f: &[&str]) -> String {
         mapping.insert(k, v);
     }
     let Some(tree) = parse_tree(&mut c) else { return "bad-req".into() };
+    // optional scope section: `S <level> I n <pat>.. X n <pat>.. G n (<kind> <dir> <path>)..`
+    // (the ignore files themselves are part of the tree; the G facts are for the model only)
+    let mut level: u8 = 0;
+    let mut includes: Vec<String> = vec![];
+    let mut excludes: Vec<String> = vec![];
     if !c.done() {
-        return "bad-req".into();
+        if c.next() != Some("S") {
+            return "bad-req".into();
+        }
+        let Some(l) = c.next().and_then(|x| x.parse::<u8>().ok()) else { return "bad-req".into() };
+        level = l;
+        for (tag, dst) in [("I", &mut includes), ("X", &mut excludes)] {
+            let Some(n) = c.counted(tag) else { return "bad-req".into() };
+            for _ in 0..n {
+                let Some(p) = c.next().and_then(unhex_str) else { return "bad-req".into() };
+                dst.push(p);
+            }
+        }
+        let Some(n) = c.counted("G") else { return "bad-req".into() };
+        for _ in 0..3 * n {
+            if c.next().is_none() {
+                return "bad-req".into();
+            }
+        }
+        if !c.done() {
+            return "bad-req".into();
+        }
     }
 
     let base = fresh("rp");
@@ -152,6 +179,9 @@ fn plan(f: &[&str]) -> String {
         rename_root: false,
         coerce_separators: if flags.contains('c') { CoercionMode::Auto } else { CoercionMode::Off },
         enable_plural_variants: plural,
+        unrestricted_level: level,
+        includes,
+        excludes,
         ..PlanOptions::default()
     };
     let out = match mode {
